@@ -32,7 +32,8 @@ CFG = {'level': 'fault_enumeration',
                'missing, empty, deep, non-empty and non-directory targets): Unzip succeeds exactly when CheckZip accepts and every file entry '
                'has its declared size and CRC; an accepted archive obeys every documented restriction (own checker); after success the tree '
                'equals the entries; nothing is ever created or changed outside the target directory (snapshot; thorough: also every successful '
-               'openat(O_CREAT)/mkdirat/symlinkat/linkat/renameat*/mknodat of 1.6*10^4 traced extractions lies under the target).',
+               'openat(O_CREAT)/mkdirat/symlinkat/linkat/renameat*/mknodat of 1.6*10^4 traced extractions lies under the target).'
+               ' Added after seeded changes: header attribute bits (unix/DOS directory bit, exec) on raw entries, and an archive-swap scenario in which a goroutine alternates a valid and an escaping archive at the same path by rename while Unzip runs.',
  'level_note': 'Sizes near the limits are only declared, never materialised. A failed extraction may leave partial files inside the target '
                '(documented). Escapes more than three directory levels above the target are visible only to the strace monitor and the end-of-batch '
                'check of the sandbox base. The converse "an archive that obeys every restriction is accepted" is not part of the statement; it is '
